@@ -175,19 +175,21 @@ DEPENDS = {
             (r"C03/%s\.(pareto_updating|useful_updating)$" % _PAV, r"^(safe|mono)/"),
             (r"C09/(Rect|Ell)\.is_dominated\[", _DOM_SOUND), (r"C09/lemma\.box_extreme", r"."),
             (r"C10/(Rect|Ell)\.is_covered\[", _COV_COMPLETE),
-            (r"C17/get_alpha", r".")],
+            (r"C17/get_alpha", r"."),
+            (r"C04/%s\.modeling$" % _PAV, r".")],
     "C05": [(r"C02/(VOGP|EpsilonPAL)\.(discarding|compute_pessimistic_set)$", r"^(safe|mono)/"),
             (r"C03/(VOGP|EpsilonPAL)\.epsiloncovering$", r"^(safe|mono)/"),
             (r"C09/(Rect|Ell)\.is_dominated\[", _DOM_SOUND), (r"C09/lemma\.box_extreme", r"."),
             (r"C10/(Rect|Ell)\.is_covered\[", _COV_COMPLETE),
-            (r"C17/VOGP\.compute_u_star", r".")],
+            (r"C17/VOGP\.compute_u_star", r"."),
+            (r"C04/(VOGP|EpsilonPAL)\.modeling$", r".")],
     # "exactly when the displayed regions certify it": the geometric meaning of the certificate predicates
     "C02": [(r"C09/", r"."), (r"C11/", r".")],
     "C03": [(r"C10/", r".")],
     # the region built from the scaling: scale x predictive std / scale-radius ellipsoid
     "C04": [(r"C14/(Rect|Ell)\.update\[", r".")],
     # step composition uses the phases' monotonicity and exception-freedom
-    "C06": [(r"C0[23]/", r"^mono/|^no-raise|^implicit")],
+    "C06": [(r"C0[23]/", r"^mono/|^no-raise|^implicit"), (r"C04/.*\.modeling$", r".")],
     # which designs are sampled and what reaches the model: the evaluating() bodies
     "C07": [(r"C06/.*\.(evaluating|evaluate_refine)$", r".")],
     "C08": [(r"C17/ConeTheta2D\.beta", r"."), (r"C13/get_pareto_set\[", r"."), (r"C12/dominates\[", r".")],
